@@ -147,6 +147,36 @@ CHECKS["C08"] = dict(
     note="Trusts TLC and vf/networld.py (virtual clock: time advances only when a read waits); server events are whole frames.",
     ref="4 C08")
 
+APP_NOTE = ("Trusts TLC, the deterministic scheduler / virtual time (vf/schedworld.py), the scripted servers and the rel-like "
+            "external dispatcher of the harness (vf/appworld.py). Time is virtual: 'prompt' = the same millisecond.")
+
+
+def _app(pid, text, tech):
+    CHECKS[pid] = dict(engine="App+AppMon+TraceApp", technique=tech, text=text, note=APP_NOTE, ref="4 " + pid)
+
+
+_app("C13", "AppMon.tla states the callback contract over observable events only (what the server sent and when, callbacks with arguments "
+     "and time); App.tla models run_forever as Main/Ping/User/Net/Clock processes and TLC checks the monitor on every interleaving; real "
+     "run_forever executions (all histories of <=2 (thorough 3) server events, longer sampled ones, bursts in one segment followed by silence, "
+     "callback subsets, a raising callback, plain and TLS dispatcher) run under the deterministic scheduler and are validated by TLC: "
+     "open first, exactly once, in order, content and type, delivered in the millisecond of arrival.",
+     "TLC model checking of the process model App.tla against the monitor AppMon + TLC trace validation (TraceApp) of real run_forever runs")
+_app("C14", "The monitor demands on_close exactly once and last with the close frame's arguments, the return value, release of transport and "
+     "ping thread at quiescence, a second run judged afresh, termination (TLC: liveness on App.tla; harness: no runnable thread and no deadline). "
+     "Endings: close frame with/without body, EOF, reset, protocol and payload error, ping timeout, refused, rejected, close() from every callback, "
+     "KeyboardInterrupt in callbacks, user-thread close() at many times, and close() from a second thread preempting the main thread at every "
+     "n-th source line of the library (sys.settrace; thorough: every line, ~10 700 schedules).",
+     "TLC model checking (safety + liveness) of App.tla/AppMon + TLC trace validation incl. line-level preemption schedules")
+_app("C15", "Retry exactly one interval after each observable loss, no on_close in between, at most one live transport, on_reconnect/on_open, no "
+     "attempt after a server close frame or the application's close(); sequences of up to 3 (thorough 4) connection outcomes x intervals x "
+     "built-in / external dispatcher, user close() at many instants including inside the reconnect wait; same monitor on App.tla in TLC.",
+     "TLC model checking of App.tla/AppMon + TLC trace validation of real reconnect histories (built-in loop and external dispatcher)")
+_app("C16", "App.tla carries the check() predicate and the ping thread's stamping exactly as written and TLC explores the (interval, timeout) grid x "
+     "pong latency patterns x interleavings of ping thread and loop; the same grid is executed on the real code in virtual time (silent from the "
+     "k-th ping on, latencies below/at/above the timeout, concurrent traffic, invalid settings) and judged by TLC: periodic pings with the payload, "
+     "report no later than 2 timeouts after the first unanswered ping, never for a responsive peer.",
+     "TLC model checking over the interval/timeout grid (with the repaired defect re-enabled as a negative control) + TLC trace validation")
+
 NOT_YET = {}
 
 
